@@ -278,6 +278,9 @@ namespace c18
       else if(CE::maxn > 9) opt.max_cells = std::min<Index>(opt.max_cells, c.thorough() ? 150 : 24);
       MeshInfo info;
       auto spec0 = c15::gen_mesh<Shape_>(c, opt, info);
+      // sometimes the "coarse" level is itself a refined mesh (transfer between levels 1 and 2)
+      const bool deep = spec0.num_cells() * Index(1 << dim) <= opt.max_cells && c.rng.coin(0.5);
+      c.tag(deep ? "levels:1-2" : "levels:0-1");
       const int perm_c = c.rng.coin(0.4) ? int(c.rng.range(1, 7)) : 0, perm_f = c.rng.coin(0.4) ? int(c.rng.range(1, 7)) : 0;
       const bool via_node = c.rng.coin(0.3);
       c.tag(std::string("perm_c:") + perm_name(perm_c)); c.tag(std::string("perm_f:") + perm_name(perm_f));
@@ -287,6 +290,14 @@ namespace c18
       c.set_op(op);
       c.desc = vh::J().raw("mesh", spec0.describe()).kv("space", D_::name()).kv("cubature", std::string(cub)).raw("tags", c.tags_json()).str();
 
+      if(deep)
+      {
+        auto m0 = vm::build(spec0);
+        Geometry::StandardRefinery<MeshType> refinery(*m0);
+        MeshType m1(refinery);
+        auto tags = spec0.tags; auto kind = spec0.kind;
+        spec0 = readback<Shape_>(m1); spec0.tags = tags; spec0.kind = kind + "+refined";
+      }
       // ---- unpermuted pair (reference numbering) and the pair under test (possibly permuted levels)
       auto build_pair = [&](PairT& p, int pc, int pf)
       {
@@ -489,12 +500,18 @@ namespace c18
     }
   };
 
-  struct PairEntry { void (*fn)(vh::Ctx&); bool quick; };
-  inline void run_pair(vh::Ctx& c, const PairEntry* p, std::size_t n)
+  // (space, shape) pairs register themselves under a family name from several TUs (template instantiation is heavy);
+  // the family picks pair (k mod #pairs) from the list sorted by key, so the choice does not depend on link order
+  struct PairEntry { const char* family; const char* key; void (*fn)(vh::Ctx&); bool quick; };
+  inline std::vector<PairEntry>& registry() { static std::vector<PairEntry> r; return r; }
+  struct RegPairs { RegPairs(const PairEntry* p, std::size_t n) { for(std::size_t i = 0; i < n; ++i) registry().push_back(p[i]); } };
+  inline void run_registered(vh::Ctx& c, const char* family)
   {
-    std::vector<const PairEntry*> sel;
-    for(std::size_t i = 0; i < n; ++i) if(c.thorough() || p[i].quick) sel.push_back(&p[i]);
-    sel[std::size_t(c.k % sel.size())]->fn(c);
+    std::vector<PairEntry> sel;
+    for(auto& e : registry()) if(std::strcmp(e.family, family) == 0 && (c.thorough() || e.quick)) sel.push_back(e);
+    std::sort(sel.begin(), sel.end(), [](const PairEntry& x, const PairEntry& y) { return std::strcmp(x.key, y.key) < 0; });
+    if(sel.empty()) { c.inconclusive("no pairs registered"); return; }
+    sel[std::size_t(c.k % sel.size())].fn(c);
   }
 
   struct DescBase : c15::DescBase { static constexpr bool nested = true; };
